@@ -2,6 +2,7 @@
 import itertools
 from symex.checklib import Case, run_check
 from checks import dkgcommon
+from symex import galg
 
 def run(tier, seed):
     thorough = tier == 'thorough'
@@ -32,12 +33,14 @@ def run(tier, seed):
                 cases.append(Case('jf_complaints_o%d_h%d_a%d' % (order, nh, int(ans)), 'crypto', 'zzC08_jf_complaints', [order, nh, ans]))
     for mask in ((0, 1, 2, 4, 3, 7) if not thorough else range(8)):
         cases.append(Case('jf_answer_first_%d' % mask, 'crypto', 'zzC08_jf_answer_first', [mask]))
+    cases += dkgcommon.lemma_cases(thorough, Case)
     return run_check('C08', cases, tier, seed, setup=dkgcommon.SETUP,
-        functions=['(*feldmanVSSstate).receiveShare/receiveVerifVector/End', '(*feldmanVSSQualState).receiveShare/receiveVerifVector/receiveComplaint/receiveComplaintAnswer/setSharesTimeout/setComplaintsTimeout/buildAndBroadcastComplaint/End', 'C:Fr_star_read_bytes'],
+        functions=['C:G2_vector_read_bytes', 'C:E2_vector_write_bytes', 'C:Fr_polynomial_image_write', 'C:E2_polynomial_images', 'C:G2_check_log', '(*feldmanVSSstate).receiveShare/receiveVerifVector/End', '(*feldmanVSSQualState).receiveShare/receiveVerifVector/receiveComplaint/receiveComplaintAnswer/setSharesTimeout/setComplaintsTimeout/buildAndBroadcastComplaint/End', 'C:Fr_star_read_bytes'],
         bounds={'plain Feldman VSS': 'n=3, t=1, non-dealer participant; every vector kind (9) x share kind (10) x both delivery orders, duplicates of either message',
                 'Feldman-VSS-Qual participant': 'n=4, t=2; vector kinds {omitted, 9 kinds} x share kinds {omitted, 10 kinds} x both orders; dealer answers (6 kinds) to this participant and to another complainer; honest complaint from another participant',
                 'Joint-Feldman observer': 'n=5, t=2: a Byzantine participant disqualified as a dealer (bad vector first / last / none) complains, with 2 honest participants, against another dealer who answers only the honest ones',
                 'dealer role': 'complaints from every pair of (in/out of range) origins, duplicates',
-                'outside': 'larger n, t; more than two complainers; the algebra behind "share matches vector" (uninterpreted; honest-dealing axioms listed); network assumptions'},
-        assumptions=dkgcommon.ASSUME, trusted=dkgcommon.TRUSTED,
+                'lemmas': dkgcommon.LEMMA_BOUND,
+                'outside': 'larger n, t; more than two complainers; the algebra behind "share matches vector" beyond the contract lemmas (honest-dealing axioms listed); network assumptions'},
+        assumptions=dkgcommon.ASSUME, trusted=dkgcommon.TRUSTED + galg.TRUSTED,
         explanation='bounded symbolic execution of the real DKG handlers over a message grammar; message contents are symbolic bytes constrained only by the kind (valid / malformed / inconsistent), parse and check verdicts are uninterpreted functions of the bytes; assertions: honest never blamed, complaint built at most once, dealer answers each first complaint once, disqualification rules, plain-VSS keys only for a valid vector with matching share, no panic')
